@@ -606,6 +606,12 @@ def boundary_module(rng, quick=True):
     types.append(("BExtC", T("CHOICE", comps=[{"id": "a", "type": T("NULL", tag=("ctx", 0, ""))},
                                               {"id": "x", "type": T("OCTET STRING", size=None, tag=("ctx", 1, ""))}], ext=1)))
     osz = [0, 1, 125, 126, 127, 16381, 16382, 16383, 32765, 32766, 49149, 65532, 65533]
+    # SIZE upper bounds around 64K (X.691 10.9.4.1: ub >= 64K means the length is a general length determinant)
+    for i, (lo, hi) in enumerate([(1, 65536), (65536, 65536), (0, 65535), (65535, 65535), (1, 65535), (0, 65536), (65535, 65536), (0, 65537)]):
+        types.append((f"BSzO{i}", T("OCTET STRING", size=cons(lo, hi))))
+        vals[f"BSzO{i}"] = [rb(n) for n in sorted({lo, hi, min(lo + 2, hi)})]
+        types.append((f"BSzL{i}", T("SEQUENCE OF", elem=T("BOOLEAN"), size=cons(lo, hi))))
+        vals[f"BSzL{i}"] = [[bool(rng.getrandbits(1)) for _ in range(n)] for n in sorted({lo, min(lo + 2, hi)}) if n <= 16385]
     vals["BExtS"] = [{"a": True}] + [{"a": False, "x": rb(n)} for n in osz]
     vals["BExtC"] = [("a", None)] + [("x", rb(n)) for n in osz]
     return {"name": "BND", "tagdefault": "IMPLICIT", "types": types}, vals
